@@ -290,6 +290,15 @@ func checkMain(args []string) int {
 		}
 		e := newEngine(prog, pkg, []string{"z3", "-in", "-t:120000"})
 		e.stopOnViol = 1000000
+		hasOpen := false
+		for i := range known.Findings {
+			if known.Findings[i].Property == id && known.Findings[i].Status == "open" {
+				hasOpen = true
+			}
+		}
+		if !hasOpen {
+			e.stopOnViol = 5000 // nothing to tell apart from listed findings: no need to enumerate every failing path
+		}
 		if tier == "thorough" {
 			e.solver2Bin = []string{"z3-new", "-in", "-t:120000"}
 		}
@@ -403,6 +412,9 @@ func checkMain(args []string) int {
 				perClass[cv.Class]++
 				if perClass[cv.Class] > 2 {
 					continue // two replayed representatives per class are enough
+				}
+				if len(oc.Confirmed) >= 8 {
+					continue // enough replayed counterexamples for this entry (no open finding to tell apart)
 				}
 			}
 			rp, err := writeReplay(verif, id, fmt.Sprintf("%s-e%d", ec.Name, ei), v, len(oc.Confirmed)+len(oc.Unconfirmd), params)
